@@ -14,11 +14,30 @@ rebuilt from it on replay under the same temporary root, so that keys and patter
 Round 3: name families (one quantity in several units / several quantities in one unit, all names bracketed), purely in-memory
 databases, new names of rename / add drawn from the same family; clause "'*' selects all"; an exception of a listing is a failing
 clause, not a harness error.  This exposed F23 (common path cut inside a unit bracket) and F24 (relative + absolute keys mixed).
+
+Audit after round 3 (classes of inputs, not particular changes):
+* spelling — patterns passed positionally / by keyword, as `[p]` / `(p,)` / `numpy.str_`, with `display=True`, with `relative=True`;
+  every public entry point that selects by names (`getd`, `getda`, `getl`, `geta`, `stats`, `copy`, `update(names=)`, `clear(names=)`,
+  `rename(pattern)`, `to_dataframe`, `qats.app.funcs.read_timeseries`, iteration, `TimeSeries in db`, the GUI's `join(common, relative)`);
+  files loaded by absolute / relative / un-normalised path, as a string, in one call, through `TsDB.fromfile`, with `read=True`;
+  directory and file names with parentheses, spaces, dots and carets, deeper nesting, files under two different top-level
+  directories (common path `/`);
+* boundary — the empty pattern, the empty pattern list, wildcard-only patterns, the common path itself as a pattern, patterns with the
+  other letter case, wildcards in the place of the special characters, names that are a prefix / suffix / case variant of another name
+  or resemble the file or directory name;
+* histories — the clauses are evaluated after EVERY step of a history on one database object (the same patterns asked again after
+  each mutation), the same pattern list object is used twice, rejected operations (no match, ambiguous, clash) are part of the
+  histories, selections by pattern (`copy`, `clear`) produce the next state;
+* references — the reference matcher computes the common path from the keys with its own code (not `db.common`);
+* crashes — an exception while building a database or running a history step is a failing clause.
 """
+import contextlib
 import fnmatch as pyfnmatch
+import io
 import os
 import re
 import shutil
+import tempfile
 
 import numpy as np
 
@@ -26,14 +45,22 @@ from .. import core
 from ..dbutil import Files, err_enum, hx, hxlist, unhx, unhxlist
 
 RULE = ("seeded key sets: 1-3 generated files in 1-2 directories (incl. same file name in a sub-directory, same channel names in "
-        "several files) with 1-4 series each, names from the property's alphabet incl. unit brackets with '/' — from a fixed pool or "
-        "composed as quantity+unit (1-2 quantities x 2-4 units: every name identical in front of the bracket, units agreeing up to a "
-        "'/'), optionally in-memory series, also purely in-memory databases; optionally a history of 1-3 operations (query / get+store / getm+store / rename / clear / add / update / load) before "
-        "the queries; patterns: names=None, every name, full key, listed relative name, fragments with * and ?, pattern lists of 2-3 "
-        "(also in non-registration order); non-trivial = pattern with a special character or wildcard; distinct by (key set, pattern)")
+        "several files; directory / file names with ( ) ^ . space; deeper nesting; two top-level roots) with 1-4 series each, loaded "
+        "by absolute / relative / un-normalised path, as str or list, in one call, via fromfile, read=True; names from the property's "
+        "alphabet incl. unit brackets with '/' — from a fixed pool (incl. prefixes / case variants of other names, names resembling the "
+        "file name) or composed as quantity+unit (1-2 quantities x 2-4 units: every name identical in front of the bracket, units "
+        "agreeing up to a '/'), optionally in-memory series, also purely in-memory databases; optionally a history of 1-4 operations "
+        "(query / get+store / getm+store / rename / clear / clear by pattern / add / update / load / copy by pattern / iterate / "
+        "rejected operations) before the queries, in the staged group with the queries asked after every step; patterns: names=None, "
+        "every name, full key, listed relative name, fragments with * and ?, wildcards in the place of special characters, other "
+        "letter case, empty / wildcard-only / common-path patterns, pattern lists of 0-3 (also in non-registration order); every "
+        "spelling and entry point on a sample of them; non-trivial = pattern with a special character or wildcard; distinct by "
+        "(key set, pattern)")
 
 POOL = ["a", "b", "Tension [kN/m]", "Moment [kNm]", "x y", "Acc(1)", "z^2", "m_1-2.5", "T [kN/m]", "Heave (m)", "[raw]", "a b [m/s^2]",
-        "Force", "force_2", "A", "p[0]", "q]"]
+        "Force", "force_2", "A", "p[0]", "q]",
+        # names that are a prefix / suffix / case variant of another name, or resemble the file / directory name
+        "y", "force", "Tension", "tension [kN/m]", "f.pkl", "sub", "x y ", "Acc(1) [m/s^2]", "2", "z^2 [m^2]"]
 NEWNAMES = POOL + ["renamed_series", "Sway (lf) [m]", "Surge^2 [m^2]", "added_1"]
 # names composed as <quantity><separator><unit>: the same quantity in several units, several quantities in one unit; a database whose
 # names ALL carry a unit bracket (the bracket-aware path helpers and the common path then see nothing but bracketed keys)
@@ -41,8 +68,72 @@ STEMS = ["Tension", "acc(1)", "a", "x y", "Heave", "m_1-2.5", "z^2", "T", "Momen
 UNITS = ["[kN]", "[N]", "[kN/m]", "[N/m]", "[m/s^2]", "[g]", "[-]", "[m]", "[deg]", "[rad/s]", "[m^2 s/rad]", "(m)", "[kNm]"]
 # units that agree up to a '/' inside the bracket (kept apart: F23)
 UNITS_SLASH = ["[m/s]", "[m/s^2]", "[kN/m]", "[kN/m^2]", "[deg/s]", "[deg/s^2]"]
-LAYOUTS = [["f.pkl"], ["f.pkl", "g.pkl"], ["f.pkl", "sub/f.pkl"], ["d1/f.pkl", "d2/f.pkl", "d1/g.pkl"]]
+LAYOUTS = [["f.pkl"], ["f.pkl", "g.pkl"], ["f.pkl", "sub/f.pkl"], ["d1/f.pkl", "d2/f.pkl", "d1/g.pkl"],
+           ["f.pkl", "sub/deep/f.pkl", "sub/f.pkl"], ["f (1).pkl", "f (2).pkl", "run^2 a/f.v2.pkl"], ["d1/f.pkl", "d10/f.pkl", "d1/f.pkl2.pkl"]]
+DIRDECOR = ["", "", "", " (1)", ".v2", " run^2", "-a b"]
+HOWS = ["list", "list", "list", "str", "rel", "dot", "read", "tuple"]
 OP_ERRORS = (KeyError, ValueError, LookupError, TypeError)
+ALT = "@/"                 # prefix of a file path placed under the second temporary root (another top-level directory)
+
+
+# ---------------------------------------------------------------------------------------------------------------------------------
+# temporary trees
+# ---------------------------------------------------------------------------------------------------------------------------------
+def alt_parent():
+    """a writable directory whose top-level component differs from the one of the default temporary directory (or None)"""
+    top = os.path.abspath(tempfile.gettempdir()).split(os.sep)[1]
+    for d in ("/dev/shm", "/var/tmp", "/tmp"):
+        if os.path.isdir(d) and os.access(d, os.W_OK) and os.path.abspath(d).split(os.sep)[1] != top:
+            return d
+    return None
+
+
+class Tree(Files):
+    """temporary tree with an optional second root below another top-level directory (common path '/')"""
+
+    def __init__(self):
+        Files.__init__(self)
+        self.root2 = None
+
+    def path(self, rel):
+        if rel.startswith(ALT):
+            if self.root2 is None:
+                self.root2 = tempfile.mkdtemp(prefix="qv_", dir=alt_parent())
+            return os.path.join(self.root2, rel[len(ALT):])
+        return os.path.join(self.root, rel)
+
+    def make(self, rel, names, n=4, seed=0):
+        import pandas as pd
+        path = self.path(rel)
+        os.makedirs(os.path.dirname(path), exist_ok=True)
+        t = np.arange(n, dtype=float)
+        df = pd.DataFrame({nm: (100.0 * (seed + 1) + 10.0 * j + t) for j, nm in enumerate(names)})
+        df.index = t
+        df.to_pickle(path)
+        return path
+
+    def base(self, spec):
+        return dict(root=self.root, root2=self.root2, spec=spec) if self.root2 else dict(root=self.root, spec=spec)
+
+    def close(self):
+        Files.close(self)
+        if self.root2:
+            shutil.rmtree(self.root2, ignore_errors=True)
+
+
+class FixedFiles(Tree):
+    """the temporary tree of a past run, re-created under the same root(s) (replay: keys and patterns stay identical)"""
+
+    def __init__(self, root, root2=None):
+        self.root, self.root2 = root, root2
+        self.created = [r for r in (root, root2) if r and not os.path.exists(r)]
+        for r in (root, root2):
+            if r:
+                os.makedirs(r, exist_ok=True)
+
+    def close(self):
+        for r in self.created:
+            shutil.rmtree(r, ignore_errors=True)
 
 
 # ---------------------------------------------------------------------------------------------------------------------------------
@@ -55,10 +146,11 @@ class Gen:
         self.rng = rng
         self.ndir = 0
         self.spare = []          # further names of the family the last spec was drawn from (new names for rename / add)
+        self.alt = alt_parent() is not None
 
     def newdir(self):
         self.ndir += 1
-        return "c%04d%02d" % (self.ndir, self.rng.randrange(100))
+        return "c%04d%02d%s" % (self.ndir, self.rng.randrange(100), self.rng.choice(DIRDECOR))
 
     def family(self):
         """a pool of composed names: 1-2 quantities x 2-4 units (one quantity: every name identical in front of the bracket)"""
@@ -69,6 +161,11 @@ class Gen:
         names = [s + sep + u for s in stems for u in units]
         if rng.random() < 0.2:
             names.append(rng.choice(stems))                       # the bare quantity next to its unit variants
+        if rng.random() < 0.2:
+            v = rng.choice(names)
+            v = rng.choice([v.swapcase(), v.lower(), v.upper()])  # a name that differs from another one only in letter case
+            if v not in names:
+                names.append(v)
         rng.shuffle(names)
         self.spare = [s + sep + u for s in stems for u in UNITS + UNITS_SLASH if s + sep + u not in names]
         return names
@@ -83,13 +180,14 @@ class Gen:
     def spec_from(self, POOL, seed0, mem):
         rng = self.rng
         if mem and rng.random() < 0.12:                           # purely in-memory database
-            return dict(files=[], mem=rng.sample(POOL, min(len(POOL), rng.choice([2, 3, 4]))))
+            return dict(files=[], mem=rng.sample(POOL, min(len(POOL), rng.choice([1, 2, 3, 4]))))
         nfiles = rng.choice([1, 1, 2, 3])
         layout = rng.choice(LAYOUTS)[:nfiles]
         one_dir = rng.random() < 0.5                  # the layout inside one directory / every file in a directory of its own
         same_names = rng.random() < 0.4               # the same channels in every file (case files of one model)
         d0 = self.newdir()
         base = rng.sample(POOL, min(len(POOL), rng.choice([2, 3, 4])))
+        altroot = self.alt and nfiles > 1 and rng.random() < 0.08    # the last file below another top-level directory
         files = []
         for i, rel in enumerate(layout):
             d = d0 if one_dir else self.newdir()
@@ -99,8 +197,19 @@ class Gen:
                     rng.shuffle(names)
             else:
                 names = rng.sample(POOL, min(len(POOL), rng.choice([1, 1, 2, 3, 4])))
-            files.append([os.path.join(d, rel), names, seed0 + i])
+            if rng.random() < 0.1:
+                v = rng.choice(names).swapcase()
+                if v not in names:
+                    names.append(v)                   # two series of one file that differ only in letter case
+            p = os.path.join(d, rel)
+            if altroot and i == len(layout) - 1:
+                p = ALT + p
+            files.append([p, names, seed0 + i, rng.choice(HOWS)])
         spec = dict(files=files)
+        if rng.random() < 0.1:
+            spec["fromfile"] = True                   # the first file through TsDB.fromfile
+        if nfiles > 1 and rng.random() < 0.15:
+            spec["multi"] = True                      # all files in one load call
         if mem and rng.random() < 0.25:
             spec["mem"] = rng.sample(POOL, rng.choice([1, 2]))
         return spec
@@ -108,7 +217,7 @@ class Gen:
     def allnames(self, spec):
         return [n for f in spec["files"] for n in f[1]] + list(spec.get("mem", []))
 
-    def history(self, spec):
+    def history(self, spec, staged=False):
         rng = self.rng
         ops = []
         spare = list(self.spare)
@@ -116,8 +225,13 @@ class Gen:
         def newname():
             return rng.choice(spare) if spare and rng.random() < 0.6 else rng.choice(NEWNAMES)
 
-        for _ in range(rng.choice([1, 1, 2, 3])):
-            kind = rng.choice(["query", "get", "get", "getm", "rename", "rename", "clear", "add", "update", "load"])
+        def somepat():
+            nm = rng.choice(self.allnames(spec))
+            return rng.choice(["*", nm, nm[:1] + "*", [nm[:1] + "*", "*"], [nm, nm[:1] + "*"], "*" + nm[-1:], (nm, "nomatch")])
+
+        for _ in range(rng.choice([2, 3, 4]) if staged else rng.choice([1, 1, 2, 3])):
+            kind = rng.choice(["query", "get", "get", "getm", "rename", "rename", "clear", "add", "update", "load",
+                               "clearp", "copy", "iter", "bad", "renamep"])
             if kind == "query":
                 ops.append(["query"])
             elif kind == "get":
@@ -127,75 +241,184 @@ class Gen:
                 ops.append(["getm", rng.choice(["*", nm, nm[:1] + "*", [nm[:1] + "*", "*"]]), rng.random() < 0.8])
             elif kind == "rename":
                 ops.append(["rename", rng.randrange(8), newname()])
+            elif kind == "renamep":
+                nm = rng.choice(self.allnames(spec))
+                ops.append(["renamep", rng.choice([nm, nm[:-1] + "?", nm[:1] + "*"]), newname()])
             elif kind == "clear":
                 ops.append(["clear", rng.randrange(8)])
+            elif kind == "clearp":
+                p = somepat()
+                ops.append(["clearp", list(p) if isinstance(p, tuple) else p])
+            elif kind == "copy":
+                p = rng.choice([None, "*", somepat(), somepat()])
+                ops.append(["copy", list(p) if isinstance(p, tuple) else p, rng.random() < 0.5])
+            elif kind == "iter":
+                ops.append(["iter"])
+            elif kind == "bad":
+                ops.append(["bad", rng.choice(["get-none", "get-many", "rename-clash", "rename-many", "rename-none", "add-dup",
+                                               "update-self", "getm-ind", "list-type", "get-type"]), rng.randrange(8)])
             elif kind == "add":
                 ops.append(["add", newname(), 2000.0 + len(ops)])
             elif kind == "update":
                 ops.append(["update", self.spec(seed0=10 * (len(ops) + 1)), rng.random() < 0.5])
             else:
                 ops.append(["load", [os.path.join(self.newdir(), rng.choice(["f.pkl", "g.pkl", "h.pkl"])),
-                                     rng.sample(POOL, rng.choice([1, 2, 3])), 50 + len(ops)]])
+                                     rng.sample(POOL, rng.choice([1, 2, 3])), 50 + len(ops), rng.choice(HOWS)]])
+            if staged:
+                ops.append(["ask", None])
         return ops
 
 
-class FixedFiles(Files):
-    """the temporary tree of a past run, re-created under the same root (replay: keys and patterns stay identical)"""
+class Crash(Exception):
+    """an exception of the implementation while a database is built or a history step runs"""
 
-    def __init__(self, root):
-        self.root = root
-        self.created = not os.path.exists(root)
-        os.makedirs(root, exist_ok=True)
-
-    def close(self):
-        if self.created:
-            shutil.rmtree(self.root, ignore_errors=True)
+    def __init__(self, step, exc):
+        Exception.__init__(self, "%s: %s: %s" % (step, err_enum(exc), exc))
+        self.step = step
 
 
-def realise(fl, spec):
+def spelled(path, how):
+    """the same file, written in another way"""
+    if how == "rel":
+        return os.path.relpath(path)
+    if how == "dot":
+        d, f = os.path.split(path)
+        return os.path.join(d, ".", "..", os.path.basename(d), f)
+    return path
+
+
+def realise(fl, spec, hook=None):
     """build the database described by `spec`; returns (db, vals): vals[i] = first data value of the i-th registered series
-    (tracked by the harness along the history: load/add/update append, rename keeps the position, clear removes), or None when
-    the bookkeeping could not follow an operation"""
+    (tracked by the harness along the history: load/add/update append, rename keeps the position, clear / copy select), or None
+    when the bookkeeping could not follow an operation.  `hook(db, vals, i, op)` is called at every `ask` step of the history (the
+    queries of a staged scenario); without a hook the recorded queries of the step are asked again (replay).
+    Raises `Crash` when the implementation raises something the operation is not entitled to."""
     from qats import TsDB, TimeSeries
-    db = TsDB()
-    st = dict(vals=[])
+    st = dict(db=TsDB(), vals=[])
 
-    def load(f):
-        rel, names, seed = f
-        p = fl.make(rel, names, seed=seed)
-        db.load([p])
-        st["vals"] += [100.0 * (seed + 1) + 10.0 * j for j in range(len(names))]
+    def load(files, first=False):
+        paths, args = [], []
+        for f in files:
+            rel, names, seed = f[:3]
+            how = f[3] if len(f) > 3 else "list"
+            p = fl.make(rel, names, seed=seed)
+            paths.append(p)
+            args.append((spelled(p, how), how))
+            st["vals"] += [100.0 * (seed + 1) + 10.0 * j for j in range(len(names))]
+        try:
+            if len(files) > 1:
+                st["db"].load([a for a, _ in args])
+            else:
+                a, how = args[0]
+                if first and spec.get("fromfile"):
+                    st["db"] = TsDB.fromfile(a if how == "str" else [a])
+                elif how == "str":
+                    st["db"].load(a)
+                elif how == "tuple":
+                    st["db"].load((a,))
+                elif how == "read":
+                    st["db"].load([a], read=True)
+                else:
+                    st["db"].load([a])
+        except Exception as e:
+            raise Crash("load %r" % ([a for a, _ in args],), e)
 
     def add(nm, v):
         t = np.arange(3.0)
         try:
-            db.add(TimeSeries(nm, t, t + v))
+            st["db"].add(TimeSeries(nm, t, t + v))
             st["vals"].append(float(v))
         except KeyError:
             pass
 
-    for f in spec["files"]:
-        load(f)
-    for j, nm in enumerate(spec.get("mem", [])):
-        add(nm, 1000.0 + 10.0 * j)
-    for op in spec.get("hist", []):
+    def select(newkeys, keys):
+        """bookkeeping after an operation that keeps a selection of the series"""
+        if st["vals"] is not None and len(set(newkeys)) == len(newkeys) and all(k in keys for k in newkeys):
+            st["vals"] = [st["vals"][keys.index(k)] for k in newkeys]
+        else:
+            st["vals"] = None
+
+    try:
+        if spec.get("multi") and len(spec["files"]) > 1:
+            load(spec["files"])
+        else:
+            for i, f in enumerate(spec["files"]):
+                load([f], first=(i == 0))
+        for j, nm in enumerate(spec.get("mem", [])):
+            add(nm, 1000.0 + 10.0 * j)
+    except Crash:
+        raise
+    except Exception as e:
+        raise Crash("building the database", e)
+    for i, op in enumerate(spec.get("hist", [])):
+        db = st["db"]
         n = len(db.register_keys)
         keys = list(db.register_keys)
         try:
-            if op[0] == "query":
+            if op[0] == "ask":
+                if hook is not None:
+                    hook(db, st["vals"], i, op)
+                else:
+                    scratch = core.Check("C09", "quick", 0)
+                    for what, arg, rel in (op[1] or []):
+                        evaluate(scratch, db, st["vals"], {}, what, arg, rel=rel)
+            elif op[0] == "query":
                 _ = db.common, db.list(display=False, relative=True), db.list(names="*", display=False)
             elif op[0] == "get" and n:
                 db.get(name=keys[op[1] % n], store=op[2])
             elif op[0] == "getm":
                 db.getm(names=op[1], store=op[2])
+            elif op[0] == "iter":
+                _ = [ts.name for ts in db]
             elif op[0] == "rename" and n:
                 db.rename(keys[op[1] % n], op[2])
+            elif op[0] == "renamep":
+                db.rename(op[1], op[2])
             elif op[0] == "clear" and n:
                 db.clear(names=keys[op[1] % n], display=False)
                 if list(db.register_keys) == keys[:op[1] % n] + keys[op[1] % n + 1:]:
-                    st["vals"].pop(op[1] % n)
+                    if st["vals"] is not None:
+                        st["vals"].pop(op[1] % n)
                 else:
                     st["vals"] = None
+            elif op[0] == "clearp":
+                db.clear(names=op[1], display=False)
+                select(list(db.register_keys), keys)
+            elif op[0] == "copy":
+                new = db.copy(names=op[1], shallow=op[2])
+                if new.register_keys:                    # (an empty selection is not continued with)
+                    st["db"] = new
+                    select(list(new.register_keys), keys)
+            elif op[0] == "bad" and n:
+                k = keys[op[2] % n]
+                try:
+                    if op[1] == "get-none":
+                        db.get(name="nomatch")
+                    elif op[1] == "get-many" and n > 1:
+                        db.get(name="*")
+                    elif op[1] == "rename-clash" and n > 1:
+                        other = keys[(op[2] + 1) % n]
+                        if ref_dirname(other) == ref_dirname(k):
+                            db.rename(k, other[len(ref_dirname(other)):].lstrip("/"))
+                    elif op[1] == "rename-many" and n > 1:
+                        db.rename("*", "renamed_series")
+                    elif op[1] == "rename-none":
+                        db.rename("nomatch", "renamed_series")
+                    elif op[1] == "add-dup":
+                        nm = k[len(db.common):].lstrip("/") if db.common else k
+                        db.add(TimeSeries(nm, np.arange(3.0), np.arange(3.0)))
+                    elif op[1] == "update-self":
+                        db.update(db.copy(shallow=True))
+                    elif op[1] == "getm-ind":
+                        db.getm(ind=[0, n + 3], store=False)
+                    elif op[1] == "list-type":
+                        db.list(names=5, display=False)
+                    elif op[1] == "get-type":
+                        db.get(name=[k])
+                except OP_ERRORS + (IndexError,):
+                    pass
+                if list(db.register_keys) != keys:
+                    st["vals"] = None                    # (the register after a rejected operation is C08's subject)
             elif op[0] == "add":
                 add(op[1], op[2])
             elif op[0] == "update":
@@ -206,22 +429,30 @@ def realise(fl, spec):
                 else:
                     st["vals"] = None
             elif op[0] == "load":
-                load(op[1])
+                load([op[1]])
         except OP_ERRORS:
-            pass
-        if st["vals"] is None:
-            break
-    vals = st["vals"]
-    if vals is not None and len(vals) != len(db.register_keys):
-        vals = None
-    return db, vals
+            # an operation may be rejected (clash of keys, no / several matches); whatever it did, the queries follow
+            if len(db.register_keys) != len(keys) and op[0] not in ("ask",):
+                st["vals"] = None
+        except Crash:
+            raise
+        except Exception as e:
+            raise Crash("history step %d %r" % (i, op[:2]), e)
+        if st["vals"] is not None and len(st["vals"]) != len(st["db"].register_keys):
+            st["vals"] = None
+    return st["db"], st["vals"]
 
 
 # ---------------------------------------------------------------------------------------------------------------------------------
 # queries
 # ---------------------------------------------------------------------------------------------------------------------------------
 def short(k):
-    return k.split(".pkl/")[-1] if ".pkl/" in k else os.path.basename(k)
+    """the series name of a key (bracket-aware; only used to build patterns)"""
+    if ".pkl/" in k:
+        return k.split(".pkl/")[-1]
+    i = k.find("[")
+    head, tail = (k[:i], k[i:]) if i >= 0 else (k, "")
+    return head.rsplit("/", 1)[-1] + tail
 
 
 def relative_names(db):
@@ -230,6 +461,40 @@ def relative_names(db):
         return db.list(display=False, relative=True)
     except Exception as e:
         return err_enum(e)
+
+
+def ref_dirname(k):
+    """directory part of a key; the name starts after the last separator in front of the first '[' (own code, not `_path_dirname`)"""
+    i = k.find("[")
+    head = k if i < 0 else k[:i]
+    j = head.rfind("/")
+    if j < 0:
+        return ""
+    return head[:j] if j > 0 else "/"
+
+
+def ref_common(keys):
+    """common path of the keys, by own code: the directory part of the single key, else the longest common leading run of path
+    components of the directory parts (none when absolute and relative keys are mixed or nothing is shared)"""
+    if not keys:
+        return ""
+    dirs = [ref_dirname(k) for k in keys]
+    if len(dirs) == 1:
+        return dirs[0]
+    if any(d == "" for d in dirs) or len(set(d.startswith("/") for d in dirs)) > 1:
+        return ""
+    split = [[c for c in d.split("/") if c and c != "."] for d in dirs]
+    common = []
+    for comps in zip(*split):
+        if len(set(comps)) != 1:
+            break
+        common.append(comps[0])
+    lead = "/" if dirs[0].startswith("/") else ""
+    return lead + "/".join(common)
+
+
+def casevariants(n):
+    return [v for v in (n.swapcase(), n.lower(), n.upper()) if v != n]
 
 
 def patterns(db):
@@ -245,7 +510,13 @@ def patterns(db):
             pats.update([n[:-1] + "*", "*" + n[1:], n[0] + "?" + n[2:], n.replace(" ", "?")])
         pats.add(os.path.basename(os.path.dirname(k)) + "/" + n)
         pats.add("*/" + n)
-    pats.update(["*", "*[kN/m]", "*(*)", "nomatch", "[raw]", "*^*", "?", "*.pkl/*", "* *"])
+        # the other letter case; wildcards in the place of the special characters; a star that has nothing to match
+        pats.update(casevariants(n)[:2])
+        pats.update([re.sub(r"[\[\]()^/]", "?", n), re.sub(r"\[.*\]|\(.*\)", "*", n), n + "*", "*" + n, n.split("[")[0] + "[*]"])
+    cm = ref_common(keys)
+    # boundary: empty, wildcards only, the common path itself, its children, its parent
+    pats.update(["", "**", "*/*", "?*", "*/", "/*", cm, cm + "/*", cm + "*", os.path.dirname(cm) + "/*", cm.swapcase() + "/*"])
+    pats.update(["*", "*[kN/m]", "*(*)", "nomatch", "[raw]", "*^*", "?", "*.pkl/*", "* *", "*[*", "*]", "*[[]*", "*!*", "[!a]*", "[a-z]*"])
     return sorted(pats)
 
 
@@ -312,8 +583,24 @@ def reference(keys, common, pat):
     return [k for k in keys if rx.match(k)]
 
 
+def reference_all(keys, arg):
+    """the keys selected by a pattern or a list of patterns (None: all): by pattern, then by registration order, each key once"""
+    if arg is None:
+        return list(keys)
+    cm = ref_common(keys)
+    return dedup([k for p in ([arg] if isinstance(arg, str) else arg) for k in reference(keys, cm, p)])
+
+
 def first_values(tslist):
     return [float(ts.x[0]) for ts in tslist]
+
+
+def attempt(f):
+    """value of f(), or the error kind"""
+    try:
+        return f()
+    except Exception as e:
+        return err_enum(e)
 
 
 def retrieval(chk, db, vals, keys, inp, names, listed):
@@ -350,41 +637,92 @@ def retrieval(chk, db, vals, keys, inp, names, listed):
                      "then by registration order", inp, exp, gv, clause="getl-order")
 
 
-def evaluate(chk, db, vals, base, what, arg, reply=None, rel=False):
+def second_database(chk, keys, inp, arg, same):
+    """history over two databases: the list object `same` (handed to the first database as the patterns `arg`) is used to select
+    from a second, in-memory database that holds series with the same names"""
+    from qats import TsDB, TimeSeries
+    probe = TsDB()
+    for n in dedup([short(k) for k in keys]):
+        probe.add(TimeSeries(n, np.arange(3.0), np.arange(3.0)))
+    pk = list(probe.register_keys)
+    exp = reference_all(pk, list(arg))
+    got = attempt(lambda: dedup(probe.list(names=same, display=False)))
+    if got != exp:
+        chk.fail("a list of patterns that was used to select from one database selects from the next database (in-memory series of the "
+                 "same names) exactly the matching series", dict(inp, second_keys=pk, patterns_now=list(same)), exp, got,
+                 clause="list-again")
+
+
+def compare(chk, what, inp, o, im):
+    """correspondence: reply `o` of the model against the value `im` observed on the implementation"""
+    if o is None:
+        return
+    if what == "common":
+        if unhx(o.split()[1]) != im:
+            chk.disagree("nm.common", inp, unhx(o.split()[1]), im)
+    elif what == "rel":
+        # (the model's relpath has the precondition "path non-empty"; an implementation error is reported by the clause)
+        if isinstance(im, list) and (not o.startswith("ok") or unhxlist(o.split()[1]) != im):
+            chk.disagree("nm.list(relative)", inp, unhxlist(o.split()[1]) if o.startswith("ok") else o, im)
+    elif what == "none":
+        if unhxlist(o.split()[1]) != im:
+            chk.disagree("nm.list(all)", inp, unhxlist(o.split()[1]), im)
+    elif what in ("list", "listn"):
+        if unhxlist(o.split()[1]) != im:
+            chk.disagree("nm.list", inp, unhxlist(o.split()[1]), im)
+    elif what == "get":
+        if o.strip() != im:
+            chk.disagree("nm.get", inp, o, im)
+    elif what == "in":
+        if (o.strip() == "ok 1") != im:
+            chk.disagree("nm.contains", inp, o, im)
+    elif what == "retkey":
+        if im != [unhx(o.split()[1])] and len(im) == 1:
+            chk.disagree("nm.retkey", inp, unhx(o.split()[1]), im)
+
+
+def evaluate(chk, db, vals, base, what, arg, reply=None, rel=False, defer=None):
     """one query; an exception of the implementation outside the places where the property names an error is a failing clause"""
     try:
-        _evaluate(chk, db, vals, base, what, arg, reply, rel)
+        _evaluate(chk, db, vals, base, what, arg, reply, rel, defer)
     except Exception as e:
-        inp = dict(base, keys=list(db.register_keys), what=what, arg=arg)
+        inp = dict(base() if callable(base) else base, keys=list(db.register_keys), what=what, arg=arg)
         if rel:
             inp["rel"] = True
         chk.fail("selecting / listing by names returns the matching registered series (it does not raise)", inp, "a list of keys",
                  "%s: %s" % (err_enum(e), e), clause="raises")
 
 
-def _evaluate(chk, db, vals, base, what, arg, reply=None, rel=False):
-    """correspondence with the model reply (when given) and the property's clauses on the real database for one query"""
+def _evaluate(chk, db, vals, base, what, arg, reply=None, rel=False, defer=None):
+    """correspondence with the model reply (when given; `defer`: collected for a later run of the model) and the property's
+    clauses on the real database for one query"""
     keys = list(db.register_keys)
+    if callable(base):
+        base = base()
     inp = dict(base, keys=keys, what=what, arg=arg)
     if rel:
         inp["rel"] = True
-    o = reply
+
+    def tie(im):
+        if reply is not None:
+            compare(chk, what, inp, reply, im)
+        elif defer is not None:
+            ln = line_for(what, arg, keys, defer[0], rel)
+            if ln is not None:
+                defer[1].append((ln, what, inp, im))
+
     chk.count("nm." + what)
     if what == "common":
-        if o is not None and unhx(o.split()[1]) != db.common:
-            chk.disagree("nm.common", inp, unhx(o.split()[1]), db.common)
+        tie(db.common)
     elif what == "rel":
         im = relative_names(db)
-        # (the model's relpath has the precondition "path non-empty"; an implementation error is reported by the clause below)
-        if o is not None and isinstance(im, list) and (not o.startswith("ok") or unhxlist(o.split()[1]) != im):
-            chk.disagree("nm.list(relative)", inp, unhxlist(o.split()[1]) if o.startswith("ok") else o, im)
+        tie(im)
         if not isinstance(im, list) or len(im) != len(keys):
             chk.fail("every registered series has a listed relative name (the relative listing has one entry per registered series)",
                      inp, len(keys), im if not isinstance(im, list) else len(im), clause="self-relative")
     elif what == "none":
         im = db.list(display=False)
-        if o is not None and unhxlist(o.split()[1]) != im:
-            chk.disagree("nm.list(all)", inp, unhxlist(o.split()[1]), im)
+        tie(im)
         if im != keys:
             chk.fail("without a pattern every registered series is listed, in registration order", inp, keys, im, clause="all-ordered")
         try:
@@ -396,9 +734,9 @@ def _evaluate(chk, db, vals, base, what, arg, reply=None, rel=False):
                      clause="all-ordered")
         retrieval(chk, db, vals, keys, inp, None, im)
     elif what in ("list", "listn"):
-        im = db.list(names=arg, display=False, relative=rel)
-        if o is not None and unhxlist(o.split()[1]) != im:
-            chk.disagree("nm.list", inp, unhxlist(o.split()[1]), im)
+        same = list(arg) if what == "listn" else arg           # the object handed to the implementation (used more than once)
+        im = db.list(names=same, display=False, relative=rel)
+        tie(im)
         if what == "list":
             if any(c in arg for c in "[]()^*?"):
                 chk.nontriv((tuple(keys), arg))
@@ -408,6 +746,12 @@ def _evaluate(chk, db, vals, base, what, arg, reply=None, rel=False):
             if im != ref:
                 chk.fail("selection returns exactly the registered keys matching the shell-style pattern with brackets, "
                          "parentheses and carets literal, in registration order", inp, ref, im, clause="literal")
+            # the same with the common path worked out from the keys by the harness
+            ref = reference(keys, ref_common(keys), arg)
+            if im != ref:
+                chk.fail("selection returns exactly the registered keys whose name (or full key) matches the shell-style pattern "
+                         "with brackets, parentheses and carets literal, in registration order [common path of the keys by the "
+                         "harness]", inp, ref, im, clause="literal-own")
             if arg == "*" and im != keys:
                 chk.fail("the pattern '*' matches every name: it selects all registered series, in registration order", inp, keys, im,
                          clause="star-all")
@@ -419,11 +763,31 @@ def _evaluate(chk, db, vals, base, what, arg, reply=None, rel=False):
             if dedup(im) != ref:
                 chk.fail("selection by a list of patterns returns exactly the matching registered keys, ordered by pattern and then "
                          "by registration order", inp, ref, dedup(im), clause="list-ordered")
-            retrieval(chk, db, vals, keys, inp, list(arg), im)
+            ref = reference_all(keys, list(arg))
+            if dedup(im) != ref:
+                chk.fail("selection by a list of patterns returns exactly the matching registered keys, ordered by pattern and then "
+                         "by registration order [common path of the keys by the harness]", inp, ref, dedup(im), clause="list-ordered-own")
+            # second use of the very same list object
+            again = attempt(lambda: db.list(names=same, display=False))
+            if again != im:
+                chk.fail("selecting twice with the same list of patterns gives the same series", inp, im, again, clause="list-again")
+            if same != list(arg):
+                # the caller's list is no longer the list of patterns it was: what does it select in the caller's next database?
+                second_database(chk, keys, inp, arg, same)
+            retrieval(chk, db, vals, keys, inp, same, im)
             if isinstance(arg, list):
                 tu = db.list(names=tuple(arg), display=False)
                 if tu != im:
                     chk.fail("a tuple of patterns selects as the list of the same patterns", inp, im, tu, clause="list-ordered")
+        else:
+            # relative names listed under patterns are the relative names of the selected series
+            full = attempt(lambda: db.list(names=list(arg), display=False))
+            allrel = relative_names(db)
+            if isinstance(full, list) and isinstance(allrel, list) and len(allrel) == len(keys) and all(k in keys for k in full):
+                exp = [allrel[keys.index(k)] for k in full]
+                if im != exp:
+                    chk.fail("the relative names listed for a selection are the listed relative names of the selected series, in "
+                             "the order of the selection", inp, exp, im, clause="relative-selection")
     elif what == "get":
         listed = db.list(names=arg, display=False)
         try:
@@ -432,8 +796,7 @@ def _evaluate(chk, db, vals, base, what, arg, reply=None, rel=False):
         except Exception as e:
             ts = None
             im = err_enum(e)
-        if o is not None and o.strip() != im:
-            chk.disagree("nm.get", inp, o, im)
+        tie(im)
         n = len(listed)
         exp = "err lookup" if n == 0 else "err value" if n > 1 else "ok"
         if not im.startswith(exp):
@@ -445,15 +808,12 @@ def _evaluate(chk, db, vals, base, what, arg, reply=None, rel=False):
                 chk.fail("single retrieval returns the listed series", inp, e, v, clause="get-agrees")
     elif what == "in":
         im = arg in db
-        if o is not None and (o.strip() == "ok 1") != im:
-            chk.disagree("nm.contains", inp, o, im)
+        tie(im)
         if im != (len(db.list(names=arg, display=False)) > 0):
             chk.fail("containment agrees with the listing", inp, len(db.list(names=arg, display=False)) > 0, im, clause="in-agrees")
     elif what == "retkey":
         c = db.getm(names=arg, store=False)
-        got = list(c.keys())
-        if o is not None and got != [unhx(o.split()[1])] and len(got) == 1:
-            chk.disagree("nm.retkey", inp, unhx(o.split()[1]), got)
+        tie(list(c.keys()))
     elif what == "self":
         # arg = position of the series in registration order
         k = keys[arg]
@@ -463,15 +823,180 @@ def _evaluate(chk, db, vals, base, what, arg, reply=None, rel=False):
         got = db.list(names=k, display=False)
         if got != [k]:
             chk.fail("every registered series is selected unambiguously by its full key", inp, [k], got, clause="self-full")
+        # ... and retrieved by it: single retrieval, containment, iteration's way (get(name=key)), a retrieved series is contained
+        g = attempt(lambda: db.get(k, store=False))
+        gv = g if isinstance(g, str) else float(g.x[0])
+        if isinstance(g, str) or (vals is not None and gv != vals[arg]):
+            chk.fail("every registered series is retrieved by its full key (single retrieval agrees with the listing)", inp,
+                     vals[arg] if vals is not None else "a series", gv, clause="self-full-get")
+        if (k in db) is not True:
+            chk.fail("every registered series is contained by its full key (containment agrees with the listing)", inp, True, k in db,
+                     clause="self-full-in")
+        if not isinstance(g, str):
+            fn = attempt(lambda: g.fullname)
+            exp = attempt(lambda: len(db.list(names=fn, display=False)) > 0)
+            got = attempt(lambda: g in db)
+            if got != exp:
+                chk.fail("containment of a series object agrees with the listing of its full name", dict(inp, fullname=fn), exp, got,
+                         clause="in-agrees")
         if r is None:
             return                                  # reported by the "rel" query of this state
         got = db.list(names=r, display=False)
         if got != [k]:
             chk.fail("every registered series is selected unambiguously by its own listed relative name", inp, [k], got,
                      clause="self-relative")
+        # the way of qats.app.gui: the checked item (listed relative name) joined with the common path is the name handed on
+        joined = attempt(lambda: os.path.join(db.common, r))
+        got = attempt(lambda: db.list(names=joined, display=False))
+        if got != [k]:
+            chk.fail("every registered series is selected unambiguously by its own listed relative name joined with the common path "
+                     "(the full key as the GUI rebuilds it)", dict(inp, joined=joined), [k], got, clause="self-relative")
+    elif what == "spell":
+        spellings(chk, db, vals, keys, inp, arg)
+    elif what == "entry":
+        entries(chk, db, vals, keys, inp, arg)
+    elif what == "iter":
+        got = attempt(lambda: first_values(list(db)))
+        if vals is not None and got != vals:
+            chk.fail("iteration retrieves every registered series by its full key, in registration order (single retrieval agrees "
+                     "with the listing)", inp, vals, got, clause="iter")
+        elif isinstance(got, str) or len(got) != len(keys):
+            chk.fail("iteration retrieves every registered series by its full key, in registration order (single retrieval agrees "
+                     "with the listing)", inp, len(keys), got, clause="iter")
 
 
-def enqueue(rng, quick, db, todo, npats, nlists, extra_pats=(), extra_lists=()):
+def spellings(chk, db, vals, keys, inp, p):
+    """one pattern `p` (a string) passed in every way the signature allows: the selection is the same"""
+    import qats
+    want = reference(keys, ref_common(keys), p)
+    quiet = io.StringIO()
+
+    def shown():
+        with contextlib.redirect_stdout(quiet):
+            return db.list(names=p, display=True)
+
+    ways = [("list(p)", lambda: db.list(p)),
+            ("list(p, False)", lambda: db.list(p, False)),
+            ("list(p, False, False)", lambda: db.list(p, False, False)),
+            ("list(names=[p])", lambda: db.list(names=[p])),
+            ("list(names=(p,))", lambda: db.list(names=(p,))),
+            ("list(names=numpy.str_(p))", lambda: db.list(names=np.str_(p))),
+            ("list(names=[numpy.str_(p)])", lambda: db.list(names=[np.str_(p)])),
+            ("list(names=p, display=True)", shown),
+            ("list(names=p, relative=False)", lambda: db.list(names=p, relative=False)),
+            ("getm(p, None, False, True)", lambda: list(db.getm(p, None, False, True).keys())),
+            ("getm(names=[p], fullkey=True)", lambda: list(db.getm(names=[p], fullkey=True, store=False).keys())),
+            ("getd(p, fullkey=True)", lambda: list(db.getd(p, store=False, fullkey=True).keys())),
+            ("list(names=p) again", lambda: db.list(names=p))]
+    for label, f in ways:
+        chk.count("nm.spell")
+        got = attempt(f)
+        if got != want:
+            chk.fail("the selection does not depend on how the pattern is passed (positional / keyword / one-element list or tuple / "
+                     "numpy string / display on): " + label, dict(inp, way=label), want, got, clause="spelling")
+    # relative names of a selection: the listed relative names of the selected series
+    allrel = relative_names(db)
+    if isinstance(allrel, list) and len(allrel) == len(keys):
+        exp = [allrel[keys.index(k)] for k in want]
+        for label, f in [("list(names=p, relative=True)", lambda: db.list(names=p, relative=True)),
+                         ("list(p, False, True)", lambda: db.list(p, False, True))]:
+            got = attempt(f)
+            if got != exp:
+                chk.fail("the relative names listed for a selection are the listed relative names of the selected series: " + label,
+                         dict(inp, way=label), exp, got, clause="relative-selection")
+    # single retrieval, positional: agrees with the listing
+    exp = "err lookup" if not want else "err value" if len(want) > 1 else \
+        (vals[keys.index(want[0])] if vals is not None else "ok")
+    for label, f in [("get(p)", lambda: db.get(p, None, False)), ("geta(name=p)", lambda: db.geta(name=p, store=False)[1]),
+                     ("get(name=numpy.str_(p))", lambda: db.get(name=np.str_(p), store=False))]:
+        g = attempt(f)
+        if not isinstance(g, str):
+            g = float((g.x if hasattr(g, "x") else g)[0]) if vals is not None else "ok"
+        if g != exp:
+            chk.fail("single retrieval agrees with the listing (no match: lookup error; several: value error; one: that series): "
+                     + label, dict(inp, way=label), exp, g, clause="get-agrees")
+    got = attempt(lambda: db.__contains__(np.str_(p)))
+    if got != bool(want):
+        chk.fail("containment agrees with the listing: numpy.str_(p) in db", dict(inp, way="numpy.str_ in db"), bool(want), got,
+                 clause="in-agrees")
+    _ = qats
+
+
+def entries(chk, db, vals, keys, inp, arg):
+    """every public entry point that selects by names selects the series of the listing, in its order.  `arg`: a pattern, a list of
+    patterns or None.  The expected selection is worked out by the harness (reference matcher, own common path)."""
+    from qats import TsDB
+    from qats.app.funcs import read_timeseries
+    want = reference_all(keys, arg)
+    wv = [vals[keys.index(k)] for k in want] if vals is not None else None
+    text = "selection by names through %s returns exactly the listed series, ordered by pattern and then by registration order"
+
+    def verdict(label, exp, got):
+        chk.count("nm.entry")
+        if got != exp:
+            chk.fail(text % label, dict(inp, way=label), exp, got, clause="entry")
+
+    def given():
+        return list(arg) if isinstance(arg, list) else arg       # a fresh object per call
+
+    verdict("getd(names, fullkey=True)", want, attempt(lambda: list(db.getd(names=given(), store=False, fullkey=True).keys())))
+    verdict("getda(names, fullkey=True)", want, attempt(lambda: list(db.getda(names=given(), store=False, fullkey=True).keys())))
+    verdict("stats(names, fullkey=True)", want, attempt(lambda: list(db.stats(names=given(), store=False, fullkey=True).keys())))
+    if wv is not None:
+        verdict("getl(names, None, False)", wv, attempt(lambda: first_values(db.getl(given(), None, False))))
+        verdict("getda(names) data", wv, attempt(lambda: [float(x[0]) for _, x in db.getda(names=given(), store=False).values()]))
+        verdict("qats.app.funcs.read_timeseries(db, names)", wv, attempt(lambda: first_values(read_timeseries(db, given()).values())))
+    else:
+        verdict("qats.app.funcs.read_timeseries(db, names)", len(want), attempt(lambda: len(read_timeseries(db, given()))))
+
+    def frame():
+        df = db.to_dataframe(names=given(), store=False)
+        return [float(v) for v in df.iloc[0]]
+
+    if wv is not None and want:
+        got = attempt(frame)
+        if got != "err value":                                   # (series without a common time array are refused)
+            verdict("to_dataframe(names)", wv, got)
+
+    # selections that build / change a database: work on copies (a deep copy first, so that nothing is shared)
+    def copied(shallow):
+        new = db.copy(names=given(), shallow=shallow)
+        return [list(new.register_keys), new.list(display=False), list(new.register.keys())]
+
+    verdict("copy(names, shallow=True)", [want] * 3, attempt(lambda: copied(True)))
+    verdict("copy(names, shallow=False)", [want] * 3, attempt(lambda: copied(False)))
+
+    def updated():
+        new = TsDB()
+        new.update(db, names=given(), shallow=True)
+        return list(new.register_keys)
+
+    verdict("update(db, names)", want, attempt(updated))
+
+    def cleared():
+        new = db.copy(shallow=True)
+        new.clear(names=given(), display=False)
+        return list(new.register_keys)
+
+    rest = [k for k in keys if k not in want] if arg is not None else []
+    verdict("clear(names) on a copy", rest, attempt(cleared))
+    if isinstance(arg, str):
+        def renamed():
+            new = db.copy(shallow=False)
+            new.rename(arg, "renamed_by_check")
+            return list(new.register_keys)
+
+        if not want:
+            exp = "err lookup"
+        elif len(want) > 1:
+            exp = "err value"
+        else:
+            nk = os.path.join(ref_dirname(want[0]), "renamed_by_check")
+            exp = [nk if k == want[0] else k for k in keys]
+        verdict("rename(pattern, new) on a copy", exp, attempt(renamed))
+
+
+def enqueue(rng, quick, db, npats, nlists, extra_pats=(), extra_lists=(), nspell=3, nentry=2):
     """the queries asked of one database state: (what, arg, rel) triples"""
     keys = list(db.register_keys)
     pats = patterns(db)
@@ -484,13 +1009,33 @@ def enqueue(rng, quick, db, todo, npats, nlists, extra_pats=(), extra_lists=()):
         q += [("list", p, False), ("get", p, False), ("in", p, False)]
     for _ in range(3):
         q.append(("listn", rng.sample(pats, 2), rng.random() < 0.5))
-    for l in pattern_lists(rng, db, pats, nlists) + [list(l) for l in extra_lists]:
+    lists = pattern_lists(rng, db, pats, nlists) + [list(l) for l in extra_lists]
+    if rng.random() < 0.3:
+        lists.append([])
+    if rng.random() < 0.3:
+        lists.append([rng.choice(pats)])
+    for l in lists:
         q.append(("listn", l, False))
+        if rng.random() < 0.3:
+            q.append(("listn", l, True))
     for k in keys:
         q.append(("retkey", k, False))
     for i in range(len(keys)):
         q.append(("self", i, False))
-    todo.append(q)
+    for p in rng.sample(chosen, min(len(chosen), nspell)):
+        q.append(("spell", p, False))
+    for a in rng.sample(chosen, min(len(chosen), nentry)) + rng.sample(lists, min(len(lists), 1)) + \
+            ([None] if rng.random() < 0.2 else []):
+        q.append(("entry", a, False))
+    if rng.random() < 0.5:
+        q.append(("iter", None, False))
+    return q
+
+
+def crashed(chk, base, e):
+    chk.fail("a database can be built from files and series and taken through a history of operations (selection, renaming, "
+             "clearing, merging): the implementation does not raise anything but the rejection of the operation",
+             dict(base, what="build", arg=None), "no exception", str(e), clause="raises")
 
 
 def run(chk):
@@ -503,7 +1048,7 @@ def run(chk):
     chk.matchers["F22"] = f22_shape
     rng = chk.rng
     drv = core.Driver()
-    fl = Files()
+    fl = Tree()
     cwd = os.getcwd()
     try:
         gen = Gen(rng)
@@ -511,23 +1056,51 @@ def run(chk):
         for c in core.load_corpus("C09"):
             scns.append((c["spec"], c.get("pats", []), c.get("lists", [])))
         ncorpus = len(scns)
-        N = 45 if chk.quick else 500
-        H = 45 if chk.quick else 500
+        N = 40 if chk.quick else 450
+        H = 35 if chk.quick else 400
+        S = 25 if chk.quick else 250
         for _ in range(N):
             scns.append((gen.spec(), [], []))
         for _ in range(H):
             spec = gen.spec()
             spec["hist"] = gen.history(spec)
             scns.append((spec, [], []))
+        for _ in range(S):
+            spec = gen.spec()
+            spec["hist"] = gen.history(spec, staged=True)
+            scns.append((spec, [], []))
         states, todo = [], []
+        deferred = (cwd, [])
         for i, (spec, xp, xl) in enumerate(scns):
-            db, vals = realise(fl, spec)
+            carried = []          # patterns of the earlier stages of this scenario: asked again in the later ones
+
+            def hook(db, vals, opi, op, spec=spec, carried=carried):
+                if not db.register_keys:
+                    op[1] = []
+                    return
+                if op[1] is None:
+                    op[1] = [list(t) for t in enqueue(rng, True, db, 5, 2, extra_pats=carried[-4:], nspell=1, nentry=1)]
+                    carried.extend(a for w, a, r in op[1] if w == "list" and a not in carried and a != "*")
+                qs = op[1]
+                chk.dist("stage")
+                for qi, (what, arg, rel) in enumerate(qs):
+                    def base(qi=qi):
+                        return fl.base(dict(spec, hist=spec["hist"][:opi] + [["ask", qs[:qi]]]))
+                    evaluate(chk, db, vals, base, what, arg, rel=rel, defer=deferred)
+
+            try:
+                db, vals = realise(fl, spec, hook=hook)
+            except Crash as e:
+                crashed(chk, fl.base(spec), e)
+                continue
             if not db.register_keys:
                 continue
-            states.append((db, vals, dict(root=fl.root, spec=spec)))
-            enqueue(rng, chk.quick, db, todo, 18, 6, xp, xl)
-            chk.dist("history=%d" % min(len(spec.get("hist", [])), 3))
+            states.append((db, vals, fl.base(spec)))
+            todo.append(enqueue(rng, chk.quick, db, 18, 6, xp, xl))
+            chk.dist("history=%d" % min(len([o for o in spec.get("hist", []) if o[0] != "ask"]), 3))
             chk.dist("files=%d" % len(spec["files"]))
+            if any(f[0].startswith(ALT) for f in spec["files"]):
+                chk.dist("two top-level roots")
         lines, where = [], []
         for si, ((db, vals, base), q) in enumerate(zip(states, todo)):
             keys = list(db.register_keys)
@@ -536,7 +1109,12 @@ def run(chk):
                 if ln is not None:
                     where.append((si, qi))
                     lines.append(ln)
-        replies = dict(zip(where, drv.run(lines)))
+        nmain = len(lines)
+        lines += [d[0] for d in deferred[1]]
+        out = drv.run(lines)
+        replies = dict(zip(where, out[:nmain]))
+        for (ln, what, inp, im), o in zip(deferred[1], out[nmain:]):
+            compare(chk, what, inp, o, im)
         for si, ((db, vals, base), q) in enumerate(zip(states, todo)):
             for qi, (what, arg, rel) in enumerate(q):
                 evaluate(chk, db, vals, base, what, arg, reply=replies.get((si, qi)), rel=rel)
@@ -560,7 +1138,8 @@ def run(chk):
                 im = pyfnmatch.fnmatchcase(k, p)
                 if (o.strip() == "ok 1") != im:
                     chk.disagree("nm.fnmatch", dict(pattern=p, name=k), o, im)
-        chk.sample(dict(keys=list(states[0][0].register_keys), common=states[0][0].common))
+        if states:
+            chk.sample(dict(keys=list(states[0][0].register_keys), common=attempt(lambda: states[0][0].common)))
     finally:
         fl.close()
 
@@ -610,16 +1189,26 @@ def replay(rp):
             return 1
         print("nothing to replay (no database spec in this file); re-run: VERIF_SEED=%s ./check C09 %s" % (rp.get("seed"), rp.get("tier")))
         return 1
-    fl = FixedFiles(inp["root"])
+    fl = FixedFiles(inp["root"], inp.get("root2"))
     try:
-        db, vals = realise(fl, inp["spec"])
-        keys = list(db.register_keys)
         print("spec:", inp["spec"])
+        base = fl.base(inp["spec"])
+        chk = core.Check("C09", "quick", 0)
+        try:
+            db, vals = realise(fl, inp["spec"])
+        except Crash as e:
+            crashed(chk, base, e)
+            print("FAILS:", chk.failing[0]["oracle"])
+            print("   observed:", chk.failing[0]["observed"])
+            return 1
+        keys = list(db.register_keys)
         print("keys:", keys)
         print("query:", inp["what"], repr(inp["arg"]))
+        if inp["what"] == "build":
+            print("replay: the database is built and its history runs without an exception")
+            return 0
         if keys != inp.get("keys"):
             print("note: the rebuilt database has different keys than the recorded ones:", inp.get("keys"))
-        chk = core.Check("C09", "quick", 0)
         what, arg, rel = inp["what"], inp["arg"], bool(inp.get("rel"))
         reply = None
         ln = line_for(what, arg, keys, os.getcwd(), rel)
@@ -628,7 +1217,7 @@ def replay(rp):
                 reply = core.Driver().run([ln])[0]
             except Exception as e:      # the clauses on the implementation do not need the model
                 print("model not available:", e)
-        evaluate(chk, db, vals, dict(root=inp["root"], spec=inp["spec"]), what, arg, reply=reply, rel=rel)
+        evaluate(chk, db, vals, base, what, arg, reply=reply, rel=rel)
         for f in chk.failing:
             print("FAILS:", f["oracle"])
             print("   expected:", f["expected"])
